@@ -47,6 +47,18 @@ def opsSolver : List (String × Handler) := [
     let W := invGJ S
     let mh := if S.invOk W then showRat (Solver.mleTerm s tr (fun _ => c) st Gt W) else "-1"
     pure (showSolState new ++ " " ++ mh)),
+  ("sv_init_update", do
+    -- n k modeU c st -> updated state (the initial-constraint update of solver.init), then maha of 0 if S regular else -1
+    let n ← pNat; let k ← pNat; let modeU ← pNat
+    let cA ← pMat k n; let cb ← pVec k; let cQ ← pMat k k
+    let st ← pSolState n; pEnd
+    let c : Cond k n Q := { A := cA, b := cb, Q := cQ }
+    let Gu ← (findGain c st.u modeU : Except String _)
+    let new := st.update (c.bayesZero st.u Gu)
+    let S := (c.marg st.u).cov
+    let W := invGJ S
+    let mh := if S.invOk W then showRat (c.whitenedSq st.u W) else "-1"
+    pure (showSolState new ++ " " ++ mh)),
   ("sv_dyn_sq", do
     -- n k tr1 c st -> squared whitened residual of the mean-only prediction
     let n ← pNat; let k ← pNat
